@@ -57,6 +57,7 @@ type Spec struct {
 	Solver    string            `json:"solver"`
 	NoMerge   bool              `json:"nomerge"`
 	Havoc     []string          `json:"havoc"` // functions replaced by an unconstrained result (over-approximation)
+	Summaries []string          `json:"summaries"` // "pkg.fn=HarnessFn": calls to fn run HarnessFn (same package as the harness) instead
 }
 
 // Result is what one harness run (one shard) reports.
@@ -141,6 +142,22 @@ func Run(spec *Spec) (res *Result) {
 		}
 		havocFns[h] = true
 	}
+	summaryNames = map[string]string{}
+	summaryFns = map[string]*ssa.Function{}
+	for _, sm := range spec.Summaries {
+		kv := strings.SplitN(sm, "=", 2)
+		if len(kv) != 2 {
+			continue
+		}
+		h := kv[0]
+		if !strings.Contains(h, modPath) {
+			h = strings.Replace(h, "(*", "(*"+modPath+"/", 1)
+			if !strings.Contains(h, modPath) {
+				h = modPath + "/" + h
+			}
+		}
+		summaryNames[h] = kv[1]
+	}
 	overlay, err := BuildOverlay(spec)
 	if err != nil {
 		res.Error = err.Error()
@@ -182,6 +199,14 @@ func Run(spec *Spec) (res *Result) {
 	if hf == nil {
 		res.Error = "harness func not found: " + spec.Fn
 		return
+	}
+	for target, repl := range summaryNames {
+		rf := hp.Func(repl)
+		if rf == nil {
+			res.Error = "summary func not found: " + repl
+			return
+		}
+		summaryFns[target] = rf
 	}
 	i := &interpreter{prog: prog, globals: make(map[*ssa.Global]*value), sizes: &types.StdSizes{WordSize: 8, MaxAlign: 8}, goroutines: 1}
 	if rp := prog.ImportedPackage("runtime"); rp != nil {
